@@ -96,7 +96,7 @@ def main():
                 "evidence_file": f"/verif/evidence/{pid}.json",
                 "replay_cmd_template": "harness/target/release/cvx replay {path}",
                 "engine": "cvx",
-                "level_claimed": {"category": "model_checking", "text": text, "design_ref": ref},
+                "level_claimed": {"category": "model_checking", "text": text + " Families, alphabets and bounds were extended after each round of seeded changes (DESIGN.md §10.6); the exact enumeration of the current build is the `rule` / `bound_completed` text the check writes into its evidence file on every run.", "design_ref": ref + ", §10"},
                 "level_note": note,
                 "technique": tech,
             })
